@@ -168,7 +168,8 @@ TEXT = {
               "TLC exhaustive on DirectCount.tla (design, both variants) + TLC-generated schedules replayed on the real gateway, traces validated by the observer spec"),
     "C09": _t("MQ boundary rules (get only under an established event subscription, no duplicate subscription), use count = subscribers at quiescence, nothing left after the (fake-time) eviction delay, gauges zero.", TECH),
     "C10": _t("Every client frame scanned for every live connection id; every connection-bound request must carry the id of a live connection and its token; a token reset's auth request only for a connection whose own non-empty token id is listed (resets listing an empty id, connections without a token id).", TECH),
-    "C11": _t("Disconnects at arbitrary points of the schedules; after the connection's conn subscription is removed no request may carry its id, it must be gone from the snapshot, use counts must match subscribers.", TECH),
+    "C11": _t("Disconnects at arbitrary points of the schedules; after the connection's conn subscription is removed no request may carry its id, it must be gone from the snapshot, use counts must match subscribers. spec/ConnQueue.tla (Enqueue / outputWorker / dispose of a connection: every accepted closure runs exactly once in order, also those queued behind the dispose closure, refusals only after it, the worker leaves exactly when everything has run) is model-checked exhaustively; the cq* notes of every gateway trace are replayed against it by ConnQueueTrace.tla.",
+              "TLC exhaustive on ConnQueue.tla + TLC-generated schedules with disconnects replayed on the real gateway, traces validated by the observer spec (incl. the ConnQueueTrace replay)"),
     "C13": _t("Query families: aliasing queries, query events with every answer kind; convergence (C01 predicate) per alias rid, lock released at quiescence, no stall.", TECH),
     "C12": _t("spec/ResSub.tla (cached content against an ordered service channel: initial get, state / custom events, silent mutations revealed by resets, re-fetch) is model-checked exhaustively: no gap, subscribers told what the cache holds, convergence, one re-fetch at a time, every reset eventually re-fetched. Pattern matching and both diff routines are checked exhaustively over bounded domains against definitional TLA+ modules (spec/fn/ResPattern.tla, ResDiff.tla); the protocol part (re-fetch of exactly the matching cached resources, convergence after silent mutations + reset) is checked on replayed schedules by the observer.",
               "TLC exhaustive on ResSub.tla + exhaustive function tables checked by TLC against spec/fn + TLC-generated schedules with resets validated by the observer spec",
@@ -361,6 +362,32 @@ PROPS["C12"] = dict(run=tables.combine(ressub_model, tables.tables_run(["pattern
                                        gateway_run(["stream", "win-load", "win-alias", "win-reset1", "win-reset2"], ["mreq", "cev"], also=("C01",))))
 
 
+def connqueue_model(ctx):
+    """Exhaustive TLC run of spec/ConnQueue.tla (the work queue of one client connection: Enqueue / outputWorker / dispose)."""
+    import os, shutil
+    from .common import SPEC, tlc, tlc_stats, MachineryError
+    d = os.path.join(ctx.workdir, "connqueue-mc")
+    os.makedirs(d, exist_ok=True)
+    shutil.copy(os.path.join(SPEC, "ConnQueue.tla"), d)
+    n = 6 if ctx.tier == "quick" else 9
+    def cfg(skip):
+        with open(os.path.join(d, "ConnQueue.cfg"), "w") as f:
+            f.write("SPECIFICATION Spec\nCONSTANTS\n MaxWork = %d\n SkipBehind = %s\nINVARIANTS FIFO OneToken NoSendClosed RefusedLate DoneComplete OnlyDisposedLeaves\n%sCHECK_DEADLOCK FALSE\n"
+                    % (n, skip, "" if skip == "TRUE" else "PROPERTIES AllRun Leaves\n"))
+    cfg("FALSE")
+    p = tlc("ConnQueue.tla", d, [], timeout=1800, workers=4)
+    if "No error has been found" not in p.stdout:
+        raise MachineryError("ConnQueue.tla does not satisfy its own properties (model bug):\n" + p.stdout[-2000:])
+    g, dist = tlc_stats(p.stdout)
+    cfg("TRUE")
+    pn = tlc("ConnQueue.tla", d, [], timeout=900, workers=4)
+    if "Invariant DoneComplete is violated" not in pn.stdout:
+        raise MachineryError("ConnQueue.tla with SkipBehind = TRUE should violate DoneComplete (vacuous model):\n" + pn.stdout[-1500:])
+    cov = dict(states=dist, transitions=g, samples=[{"model": "spec/ConnQueue.tla MaxWork=%d: producers enqueue work and dispose closures at any time; invariants FIFO OneToken NoSendClosed RefusedLate DoneComplete OnlyDisposedLeaves, liveness AllRun Leaves; negative check: a worker that drops what is queued behind the dispose closure violates DoneComplete" % n}],
+               rule="exhaustive TLC on ConnQueue.tla; the code is bound to it by the cq* notes (taken under the connection's mutex) replayed by ConnQueueTrace.tla inside the observer on every gateway trace, per connection object", exhaustive=False)
+    return dict(coverage=cov, violations=[], level="model_checking", assumptions=[])
+
+
 def subready_model(ctx):
     """Exhaustive TLC run of spec/SubReady.tla (readiness of a subscription tree: OnReady / onLoaded / collectRefs / Loaded / doneLoading)."""
     import os, shutil
@@ -424,6 +451,8 @@ def directcount_model(ctx):
                rule="exhaustive TLC on DirectCount.tla (design level); the code is judged by the observer's C08 rules on replayed schedules, with KF-H attributed by its signature", exhaustive=False)
     return dict(coverage=cov, violations=[], level="model_checking", assumptions=[])
 
+
+PROPS["C11"] = dict(run=tables.combine(connqueue_model, gateway_run(["cache", "access", "win-evict", "thr-reset1"], ["close", "sockClosed"], also=("C09",))))
 
 PROPS["C07"] = dict(run=tables.combine(subready_model, gateway_run(["gc", "access", "win-gc", "win-recheck", "thr-ref1"], ["cres"])))
 
